@@ -123,12 +123,44 @@ def make(maxdeps):
     return fn
 
 
+def scale_fn(g):
+    """A combine over 12 dependencies (more than any worker/batch count), two runs."""
+    import conductor.cli.run as cli_run
+    cpkg = ("", "deep/er/pkg")[g.choose("cpkg", 2)]
+    second = g.flag("second_run_again")
+    deps = [TaskSpec("d%02d" % i, ("run_experiment", "run_command")[i % 2], [], pkg=("", "a", "a/b", "c")[i % 4]) for i in range(12)]
+    cspec = TaskSpec("c", "combine", [d.ident for d in deps], pkg=cpkg)
+    proj = hrun.Project()
+    try:
+        proj.write_tasks(deps + [cspec])
+        cout = proj.out / cpkg / "c.task"
+        D = "combine %s over 12 dependencies, second_run=%s" % (cspec.ident, second)
+        for r in range(2 if second else 1):
+            kern = fakeos.Kernel(graphs.SymSched(g, all_ok=True, on_spawn=graphs.output_writer), clock=fakeos.Clock(lambda i, r=r: 1000.0 + 10 * r))
+            res = hrun.invoke(cli_run.main, hrun.run_ns(task_identifier=cspec.ident, again=(r == 1)), str(proj.root), kern, timeout=120)
+            if isinstance(res.status, str):
+                g.require(False, "combine:crash:" + res.status[4:], "%s; %s" % (res.exc, D))
+            g.require(res.status == 0, "combine:run-failed", "run %d status=%r; %s" % (r, res.status, D))
+            written = {p.name: p.env["COND_OUT"] for p in kern.tasks()}
+            for d in deps:
+                link = cout / d.name
+                g.require(os.path.lexists(link) and os.path.realpath(link) == os.path.realpath(written[d.name]), "combine:entry-wrong-or-missing",
+                          "run %d: %s -> %s, expected %s; %s" % (r, d.name, os.path.realpath(link) if os.path.lexists(link) else None, written[d.name][-30:], D))
+            g.require(sorted(os.listdir(cout)) == sorted(d.name for d in deps), "combine:entry-wrong-or-missing", "entries %s; %s" % (sorted(os.listdir(cout)), D))
+        g.goal("combine over more than eight dependencies")
+        return {"nontrivial": True, "sample": {"case": D}}
+    finally:
+        proj.cleanup()
+
+
 def spaces(tier):
     goals = ["non-link entry reported as a conflict", "re-run re-points a link to a new version", "dependency in another package",
              "existing link replaced", "dependency re-run on its own between two combine runs"]
     sp = [Space("deps2", make(2), "1..2 dependencies of kinds {experiment, command, group} in packages {root, p, p/q}, command output "
                 "empty or not, combine task in {root, p}, pre-existing entry {none, dir, file, link}, one or two runs (second with --again)",
                 depth=7, goals=goals, outside=["dangling links made by hand", ">3 dependencies"])]
+    sp.append(Space("scale-twelve-deps", scale_fn, "a combine over 12 dependencies (experiments and commands in 4 packages), combine in the root or "
+                    "3 packages deep, one or two runs", depth=3, goals=["combine over more than eight dependencies"]))
     if tier == "thorough":
         sp.append(Space("deps3", make(3), "1..3 dependencies, same dimensions", depth=8, tiers=("thorough",)))
     return sp
